@@ -648,6 +648,26 @@ class Interp:
                     if not (inp is not None and inp[0] == "enum" and inp[2] == "Ok"):
                         for (st2, rt) in called:
                             res.append((st2, ("enum", rpath, "Err", (rt,))))
+                elif name == "try_for_each":
+                    # calls the closure for each element until it fails: Ok(()) if every call returned Ok
+                    # (also for no element at all), otherwise the first Err
+                    rpath = "std::result::Result"
+                    seen = {st}
+                    frontier = [st]
+                    res.append((st, ("enum", rpath, "Ok", (None,))))
+                    while frontier:
+                        s0 = frontier.pop()
+                        for (st2, rt) in self.summary(cf, s0, ()):
+                            if rt is not None and rt[0] == "enum" and rt[2] in ("Err", "Break"):
+                                res.append((st2, ("enum", rpath, "Err", (None,))))
+                                continue
+                            if rt is None or rt[0] != "enum":
+                                res.append((st2, None))
+                            else:
+                                res.append((st2, ("enum", rpath, "Ok", (None,))))
+                            if st2 not in seen:
+                                seen.add(st2)
+                                frontier.append(st2)
                 else:
                     # may be called any number of times
                     seen = {st}
